@@ -223,7 +223,6 @@ func checkEntryStorage(c *core.Ctx, rule string) {
 
 var _ = token.NoPos
 
-
 // plainSetterProblem: fn(recv, arg) has one path on which it stores arg (or an ordered copy of it) into field f of recv, once,
 // and does nothing else — or hands both on, unchanged, to a function of the package for which that holds. "" if so.
 func plainSetterProblem(fn *ssa.Function, f *types.Var, what string, depth int) string {
